@@ -13,6 +13,9 @@ checks = {
  "C12": dict(harness="hcmdq", design="§6 C12",
    text="Seeded exploration of the real CommandQueue+Servent with concurrent clients and per-(command,target) executor behaviours (reply, error, send failure, silence, duplicate, late, foreign id, id of another command, wrong sender) delivered in schedule-decided order; oracles: exactly one completion per command, within the command's own timeout, per-target attribution by unique reply nonce, target set preserved, queue alive afterwards.",
    note="Executors and the send function are stubs (the code's own SendCommandFunc seam); delays within 10% of the timeout are not generated; one queue per servent as in the core."),
+ "C11": dict(harness="htree", design="§6 C11",
+   text="Seeded exploration of the real role tree (aggregator/include/task/call roles, SafeState/SafeStatus, ParentAdapter) under 1-4 concurrent updaters of distinct leaves, a final round of 2-3 single racing updates; after every round every node is compared with a reference fold written from the statement, and what the ParentAdapter subscriber received is checked for lost or invented ERROR.",
+   note="Trees are generated programmatically through verif-tagged constructors (not loaded from templates); every leaf receives a status in the first round; one updater per leaf at a time."),
 }
 
 na = {
